@@ -171,7 +171,7 @@ def sorted_values_regathered(ctx, chk, rule, modules, key_prefix):
                 chk.ob(rule, False, where_of(fi, node),
                        "%s with %s = %s: values held in sorted order are gathered by the sorting permutation" % (ast.unparse(node)[:60], pname, ast.unparse(call)[:50]),
                        "each value at the position of its own level: scatter `out[%s] = values`, or gather by the inverse permutation np.argsort(%s)" % (pname, pname),
-                       key="%s|resorted|%s" % (key_prefix, q),
+                       key="%s|resorted|%s" % (key_prefix, q), local=True,
                        why="indexing by the sorting permutation sorts; applied to values already in sorted order it permutes them once more, so unless the permutation is its own inverse (ascending or descending input) the values sit under other levels than their own")
     bad = find_double_sorts(ast.parse(_CTL_BAD).body[0])
     good = find_double_sorts(ast.parse(_CTL_GOOD).body[0])
